@@ -103,13 +103,14 @@ Definition ex_hslice_e : hslice_syntax :=
               1 false 3%Z 0%Z 0%Z 0%Z 0%Z 0%Z false false false 0%Z 0%Z false
               0 [] [] [128; 0; 0; 3].
 
-(* the witness of finding C15-F11: a P slice that selects the inter-predicted set 1 of the SPS while
-   lists_modification_present_flag = 1 *)
-Definition ex_hslice_r : hslice_syntax :=
+(* the shape of the former finding C15-F11 (fixed): a P slice that selects the inter-predicted set 1 of
+   the SPS (two used entries) while lists_modification_present_flag = 1; with one used long-term
+   picture NumPicTotalCurr = 3, list_entry_l0 has 2 bits *)
+Definition ex_hslice_f : hslice_syntax :=
   mkHSliceSyn 1 0 1 true false 7 false 0 []
               1 false 0 3 true (RpsExplicit [] []) 1
-              [] []
-              false false false false 0 0 false [] false []
+              [] [(30, true, false, 0)]
+              false false false false 0 0 true [2] false []
               false false true 0
               0 0%Z [] []
               0 false 0%Z 0%Z 0%Z 0%Z 0%Z 0%Z false false false 0%Z 0%Z false
